@@ -21,12 +21,25 @@ RULE = ("case = (source matrix, target matrix, request). Matrices: 0..4 ECUs fro
         "extraction of an ECU (copy_ecu_with_frames, with and without the clean-up of indirect ECUs) is followed by up to four "
         "further copies of single frames / merges / extractions from the same source, and between the copies the target is "
         "edited through the public API (del_ecu, rename_ecu, del_frame, each surrounded by lookups ecu_by_name / glob_ecus / "
-        "frame_by_id / frame_by_name of every name and identifier of the pools); the edits are part of the history only, the copy "
-        "that follows is the judged case. ECU attribute definitions (and explicit ECU attribute values) also use the names of the "
+        "frame_by_id / frame_by_name of every name and identifier of the pools; a frame moved in place to an identifier that is free "
+        "in the target, frame.arbitration_id.id = n as convert's --changeFrameId does, so that the same frame of the source can be "
+        "copied once more); the edits are part of the history only, the copy that follows is the judged case. ECU attribute definitions (and explicit ECU attribute values) also use the names of the "
         "members of the Ecu class - 'comment', 'name', 'attributes' - ; ECUs and frames come with and without a descriptive "
-        "comment. Non-trivial = distinct case in which the target changes.")
-PARTIAL = ["everything of a frame/signal/ECU that copying treats as a blob (layout, scaling, comment, value table) is compared as "
-           "an opaque body string", "environment variables of merge are not modelled",
+        "comment. About a third of the signals carry more than layout and comment: unsigned, factor, offset, unit, an explicit range, a "
+        "value table (1..3 entries); about a third of the frames a length other than 8 (3..64), a cycle time, the FD flag - all part "
+        "of the body text that is compared as a whole. Independence is observed in every case (fresh matrices and histories alike): "
+        "after the request every object of the target is edited in place - the matrix's lists and dictionaries, every ECU, every "
+        "definition (default, definition text, ENUM value list), every frame (identifier object: id and extended, as the J1939 setters "
+        "and convert's --changeFrameId / --frameIdIncrement edit it; name, comment, length, cycle time, FD flag, sender list, attribute "
+        "dictionary, signal list) and every signal (name, comment, layout, sign, scaling, unit, range, receiver list, attribute "
+        "dictionary, value table) - and the source reported is the source seen while these edits are in force; the edits are taken "
+        "back, the same edits are made to every object of the source, and the target reported is the target seen while those are in "
+        "force. Non-trivial = distinct case in which the target changes.")
+PARTIAL = ["everything of a frame/signal/ECU that copying treats as a blob (layout, sign, scaling, unit, range, value table, comment; frame "
+           "length, cycle time, FD flag) is compared as an opaque body string; multiplexing, signal groups, PDUs, float/ASCII types, "
+           "initial value, frame receivers and mux names are not part of it",
+           "independence of a matrix that is neither source nor target of the judged step is seen only when a later step of the "
+           "history uses it as source or target", "environment variables of merge are not modelled",
            "copy_signal and the direct_ecu_only clean-up are tied by correspondence only (no Spec predicate beyond 'source unchanged')"]
 ASSUMPTIONS = ["frame and signal attribute names are not names of Frame/Signal fields (Frame.attribute / Signal.attribute answer those with "
                "the field); ECU attribute names may be names of Ecu members; attribute values carry no surrounding blanks",
@@ -75,6 +88,98 @@ def rand_attrs(rng, p=0.3, extra=()):
     return [[a, rng.choice(VALUES[a])] for a in ANAMES + list(extra) if rng.random() < p]
 
 
+# What copying treats as a blob travels in the body text of a signal / frame (opaque for the model, compared as a whole):
+#   signal  "<start>:<size>:<little endian>|<comment>"  optionally followed by  "|" + parts joined by ";" in this order:
+#           "u" (unsigned; signed is the default of the class), "f=<factor>", "o=<offset>", "un=<unit>", "r=<min>..<max>" (when not the
+#           range the class computes), "v=<key>:<text>,..." (value table, by key)
+#   frame   "<comment>"  optionally followed by  "|" + parts joined by ";":  "sz=<length>" (when not 8), "cy=<cycle time>", "fd"
+# a part is present exactly when the member differs from what build() gives without it, so build() and snapshot() are inverse
+FACTORS = ["0.25", "2", "0.001", "10"]
+OFFSETS = ["-40", "0.5", "100"]
+UNITS = ["rpm", "km/h", "%"]
+RANGES = [("-7.5", "1234.5"), ("0.125", "99.875")]
+VTEXTS = ["off", "on", "invalid", "n/a", "Init"]
+
+
+def rand_sig_extras(rng):
+    parts = []
+    if rng.random() < 0.4:
+        parts.append("u")
+    if rng.random() < 0.4:
+        parts.append("f=" + rng.choice(FACTORS))
+    if rng.random() < 0.3:
+        parts.append("o=" + rng.choice(OFFSETS))
+    if rng.random() < 0.3:
+        parts.append("un=" + rng.choice(UNITS))
+    if rng.random() < 0.2:
+        parts.append("r=%s..%s" % rng.choice(RANGES))
+    if rng.random() < 0.6 or not parts:
+        keys = sorted(rng.sample([0, 1, 2, 3, 14, 15, 255], rng.randint(1, 3)))
+        parts.append("v=" + ",".join("%d:%s" % (k, rng.choice(VTEXTS)) for k in keys))
+    return ";".join(parts)
+
+
+def rand_frame_extras(rng):
+    parts = []
+    if rng.random() < 0.5:
+        parts.append("sz=%d" % rng.choice([3, 4, 6, 12, 64]))
+    if rng.random() < 0.5:
+        parts.append("cy=%d" % rng.choice([10, 100, 1000]))
+    if rng.random() < 0.3 or not parts:
+        parts.append("fd")
+    return ";".join(parts)
+
+
+def parse_extras(text):
+    out = {}
+    for part in text.split(";"):
+        k, _, v = part.partition("=")
+        out[k] = v
+    return out
+
+
+def make_signal(sname, sbody, rx, sattrs):
+    lay, tag, extras = (sbody.split("|", 2) + [None])[:3]
+    st, sz, le = (int(x) for x in lay.split(":"))
+    kw = {}
+    if extras is not None:
+        x = parse_extras(extras)
+        if "u" in x:
+            kw["is_signed"] = False
+        if "f" in x:
+            kw["factor"] = x["f"]
+        if "o" in x:
+            kw["offset"] = x["o"]
+        if "un" in x:
+            kw["unit"] = x["un"]
+        if "r" in x:
+            kw["min"], kw["max"] = x["r"].split("..")
+        if "v" in x:
+            kw["values"] = {int(kv.split(":", 1)[0]): kv.split(":", 1)[1] for kv in x["v"].split(",")}
+    s = cm.Signal(sname, start_bit=st, size=sz, is_little_endian=bool(le), receivers=list(rx), comment=tag, **kw)
+    for a, v in sattrs:
+        s.add_attribute(a, v)
+    return s
+
+
+def make_frame(i, ext, name, body, tx, attrs, sigs):
+    comment, _, extras = body.partition("|")
+    kw = {}
+    if extras:
+        x = parse_extras(extras)
+        if "cy" in x:
+            kw["cycle_time"] = int(x["cy"])
+        if "fd" in x:
+            kw["is_fd"] = True
+    fr = cm.Frame(name, arbitration_id=cm.ArbitrationId(i, ext), size=int(parse_extras(extras).get("sz", 8)) if extras else 8,
+                  transmitters=list(tx), comment=comment or None, **kw)
+    for a, v in attrs:
+        fr.add_attribute(a, v)
+    for sig in sigs:
+        fr.add_signal(make_signal(*sig))
+    return fr
+
+
 def gen_matrix(rng, tag, dense=False):
     """dense: a network in which the same few ECUs are referenced again and again (several receivers per signal, the receivers of one
     signal are senders or receivers of the next), as a real bus has it"""
@@ -86,8 +191,14 @@ def gen_matrix(rng, tag, dense=False):
     for (i, ext) in rng.sample(IDS, rng.randint(2, 4) if dense else rng.randint(0, 4)):
         sigs = []
         for k in range(rng.randint(2, 3) if dense else rng.randint(1, 3)):
-            sigs.append(["s%d" % k, "%d:%d:%d|%s" % (8 * k, rng.randint(1, 8), rng.randint(0, 1), tag), rng.sample(ECUS, rng.choice(nrx)), rand_attrs(rng, 0.25)])
-        frames.append([i, ext, "F%x_%s" % (i, tag if rng.random() < 0.5 else "x"), "fc_%s_%x" % (tag, i) if rng.random() < 0.85 else "",
+            sbody = "%d:%d:%d|%s" % (8 * k, rng.randint(1, 8), rng.randint(0, 1), tag)
+            if rng.random() < 0.35:
+                sbody += "|" + rand_sig_extras(rng)
+            sigs.append(["s%d" % k, sbody, rng.sample(ECUS, rng.choice(nrx)), rand_attrs(rng, 0.25)])
+        fbody = "fc_%s_%x" % (tag, i) if rng.random() < 0.85 else ""
+        if rng.random() < 0.3:
+            fbody += "|" + rand_frame_extras(rng)
+        frames.append([i, ext, "F%x_%s" % (i, tag if rng.random() < 0.5 else "x"), fbody,
                        rng.sample(ECUS, rng.choice([0, 1, 1, 2])), rand_attrs(rng), sigs])
     return {"ecus": ecus, "frames": frames, "free": [], "fd": rand_defs(rng), "sd": rand_defs(rng), "ed": rand_defs(rng, ECU_ANAMES)}
 
@@ -246,6 +357,7 @@ def gen_req(rng, src, tgt):
 
 
 NMATS = 3
+MORE_IDS = [(0x50, False), (0x18FEF200, True)]       # identifiers a frame is moved to by an edit of a history
 
 
 def gen_edit(rng, desc):
@@ -259,9 +371,15 @@ def gen_edit(rng, desc):
         old = rng.choice(ecus)
         spare = [n for n in ECUS + [old + "_old", "Spare"] if n not in ecus]
         return ["edit", "rename_ecu", old, rng.choice(spare)]
-    if desc["frames"] and k < 0.85:
+    if desc["frames"] and k < 0.77:
         f = rng.choice(desc["frames"])
         return ["edit", "del_frame", f[0], f[1]]
+    if desc["frames"] and k < 0.92:
+        # the frame is moved to an identifier that is free in this matrix, in place (what convert's --changeFrameId does)
+        f = rng.choice(desc["frames"])
+        free = [i for (i, e) in IDS + MORE_IDS if e == f[1] and all((g[0], g[1]) != (i, e) for g in desc["frames"])]
+        if free:
+            return ["edit", "set_id", f[0], f[1], rng.choice(free)]
     return ["edit", "look"]
 
 
@@ -354,25 +472,10 @@ def build(m):
         for a, v in attrs:
             e.add_attribute(a, v)
         db.ecus.append(e)
-    for i, ext, name, body, tx, attrs, sigs in m["frames"]:
-        fr = cm.Frame(name, arbitration_id=cm.ArbitrationId(i, ext), size=8, transmitters=list(tx), comment=body or None)
-        for a, v in attrs:
-            fr.add_attribute(a, v)
-        for sname, sbody, rx, sattrs in sigs:
-            lay, tag = sbody.split("|")
-            st, sz, le = (int(x) for x in lay.split(":"))
-            s = cm.Signal(sname, start_bit=st, size=sz, is_little_endian=bool(le), receivers=list(rx), comment=tag)
-            for a, v in sattrs:
-                s.add_attribute(a, v)
-            fr.add_signal(s)
-        db.add_frame(fr)
-    for sname, sbody, rx, sattrs in m.get("free", []):
-        lay, tag = sbody.split("|")
-        st, sz, le = (int(x) for x in lay.split(":"))
-        s = cm.Signal(sname, start_bit=st, size=sz, is_little_endian=bool(le), receivers=list(rx), comment=tag)
-        for a, v in sattrs:
-            s.add_attribute(a, v)
-        db.add_signal(s)
+    for fdesc in m["frames"]:
+        db.add_frame(make_frame(*fdesc))
+    for sdesc in m.get("free", []):
+        db.add_signal(make_signal(*sdesc))
     return db
 
 
@@ -381,7 +484,34 @@ def al(d):
 
 
 def sigsnap(s):
-    return [s.name, "%d:%d:%d|%s" % (s.start_bit, s.size, 1 if s.is_little_endian else 0, s.comment), list(s.receivers), al(s.attributes)]
+    body = "%d:%d:%d|%s" % (s.start_bit, s.size, 1 if s.is_little_endian else 0, s.comment)
+    parts = []
+    if not s.is_signed:
+        parts.append("u")
+    if s.factor != 1:
+        parts.append("f=%s" % s.factor)
+    if s.offset != 0:
+        parts.append("o=%s" % s.offset)
+    if s.unit:
+        parts.append("un=%s" % s.unit)
+    if s.min != s.calc_min() or s.max != s.calc_max():
+        parts.append("r=%s..%s" % (s.min, s.max))
+    if s.values:
+        parts.append("v=" + ",".join("%d:%s" % kv for kv in sorted(s.values.items())))
+    if parts:
+        body += "|" + ";".join(parts)
+    return [s.name, body, list(s.receivers), al(s.attributes)]
+
+
+def framebody(f):
+    parts = []
+    if f.size != 8:
+        parts.append("sz=%d" % f.size)
+    if f.cycle_time:
+        parts.append("cy=%d" % f.cycle_time)
+    if f.is_fd:
+        parts.append("fd")
+    return (f.comment or "") + ("|" + ";".join(parts) if parts else "")
 
 
 def defsnap(d):
@@ -390,7 +520,7 @@ def defsnap(d):
 
 def snapshot(db):
     return {"ecus": [[e.name, e.comment or "", al(e.attributes)] for e in db.ecus],
-            "frames": [[f.arbitration_id.id, bool(f.arbitration_id.extended), f.name, f.comment or "", list(f.transmitters), al(f.attributes),
+            "frames": [[f.arbitration_id.id, bool(f.arbitration_id.extended), f.name, framebody(f), list(f.transmitters), al(f.attributes),
                         [sigsnap(s) for s in f.signals]] for f in db.frames],
             "free": [sigsnap(s) for s in db.signals],
             "fd": defsnap(db.frame_defines), "sd": defsnap(db.signal_defines), "ed": defsnap(db.ecu_defines)}
@@ -406,7 +536,7 @@ def look(db):
     for n in ECUS + ["Spare"]:
         db.ecu_by_name(n)
     db.glob_ecus("*")
-    for i, ext in IDS:
+    for i, ext in IDS + MORE_IDS:
         db.frame_by_id(cm.ArbitrationId(i, ext))
     for f in list(db.frames):
         db.frame_by_name(f.name)
@@ -423,6 +553,10 @@ def apply_edit(req, db):
         fr = db.frame_by_id(cm.ArbitrationId(req[2], req[3]))
         if fr is not None:
             db.del_frame(fr)
+    elif req[1] == "set_id":
+        fr = db.frame_by_id(cm.ArbitrationId(req[2], req[3]))
+        if fr is not None:
+            fr.arbitration_id.id = req[4]
     elif req[1] != "look":
         raise RuntimeError("unknown edit %r" % (req,))
     look(db)
@@ -458,6 +592,100 @@ def apply_req(req, src, tgt):
     return None
 
 
+POKE = "Poke"
+
+
+def edit_in_place(db):
+    """Every mutable thing a matrix is made of is changed in place, the way user code and canmatrix itself change a matrix they hold
+    (convert's --changeFrameId / --frameIdIncrement: frame.arbitration_id.id = ...; the J1939 setters of Frame work on the same object;
+    add_attribute, add_values, add_transmitter, add_receiver, add_signal, Define.set_default / ENUM values.append, ...): the lists
+    and dictionaries of the matrix, every ECU, every definition, every frame with its identifier object, its lists, its dictionary and its
+    signals, every signal with its lists and dictionaries.  Returns what is needed to take the edits back (in reverse order; the edits
+    nest like a stack, so that taking back works as well when two objects turn out to be one)."""
+    undo = []
+
+    def put(obj, member, value):
+        old = getattr(obj, member)
+        setattr(obj, member, value)
+        undo.append(lambda: setattr(obj, member, old))
+
+    def push(lst, item):
+        lst.append(item)
+        undo.append(lst.pop)
+
+    def key(dct, k, value):
+        had, old = k in dct, dct.get(k)
+        dct[k] = value
+        undo.append((lambda: dct.__setitem__(k, old)) if had else (lambda: dct.__delitem__(k)))
+
+    def text(v):
+        return (v or "") + "_" + POKE
+
+    def signal(sig):
+        put(sig, "name", text(sig.name))
+        put(sig, "comment", text(sig.comment))
+        put(sig, "start_bit", sig.start_bit + 1)
+        put(sig, "size", sig.size + 1)
+        put(sig, "is_little_endian", not sig.is_little_endian)
+        put(sig, "is_signed", not sig.is_signed)
+        put(sig, "factor", sig.factor * 3)
+        put(sig, "offset", sig.offset + 1)
+        put(sig, "unit", text(sig.unit))
+        put(sig, "min", None)
+        put(sig, "max", None)
+        push(sig.receivers, POKE)
+        key(sig.attributes, POKE, "1")
+        for k in list(sig.attributes):
+            key(sig.attributes, k, text(sig.attributes[k]))
+        key(sig.values, 0x7777, POKE)
+        for k in list(sig.values):
+            key(sig.values, k, text(sig.values[k]))
+
+    def definitions(dct):
+        for d in list(dct.values()):
+            put(d, "defaultValue", text(d.defaultValue))
+            put(d, "definition", d.definition + " ")
+            if d.type == "ENUM":
+                push(d.values, POKE)
+        key(dct, POKE, cm.Define("INT 0 1"))
+
+    for e in list(db.ecus):
+        put(e, "name", text(e.name))
+        put(e, "comment", text(e.comment))
+        key(e.attributes, POKE, "1")
+        for k in list(e.attributes):
+            key(e.attributes, k, text(e.attributes[k]))
+    for f in list(db.frames):
+        aid = f.arbitration_id
+        put(aid, "id", aid.id ^ 0x40)
+        put(aid, "extended", not aid.extended)
+        put(f, "name", text(f.name))
+        put(f, "comment", text(f.comment))
+        put(f, "size", f.size + 1)
+        put(f, "cycle_time", f.cycle_time + 1)
+        put(f, "is_fd", not f.is_fd)
+        push(f.transmitters, POKE)
+        key(f.attributes, POKE, "1")
+        for k in list(f.attributes):
+            key(f.attributes, k, text(f.attributes[k]))
+        for sig in list(f.signals):
+            signal(sig)
+        push(f.signals, cm.Signal(POKE, start_bit=40, size=2))
+    for sig in list(db.signals):
+        signal(sig)
+    for dct in (db.frame_defines, db.signal_defines, db.ecu_defines):
+        definitions(dct)
+    push(db.ecus, cm.Ecu(POKE))
+    push(db.frames, cm.Frame(POKE, arbitration_id=cm.ArbitrationId(0x7F0, False), size=8))
+    push(db.signals, cm.Signal(POKE, start_bit=0, size=1))
+    return undo
+
+
+def take_back(undo):
+    while undo:
+        undo.pop()()
+
+
 def observe(case):
     c = case["c"]
     pre = c.get("pre")
@@ -472,7 +700,16 @@ def observe(case):
     else:
         src, tgt = build(c["src"]), build(c["tgt"])
     res = apply_req(c["req"], src, tgt)
-    return {"res": res, "tgt": snapshot(tgt), "src": snapshot(src)}
+    # "independent of it": what the copy left in the target shares nothing with the source.  Every object of the target is edited in place
+    # (see edit_in_place) while the source is looked at, the edits are taken back, then every object of the source is edited in place while
+    # the target is looked at.  Matrices that share nothing show what they show without the edits.
+    undo = edit_in_place(tgt)
+    src_seen = snapshot(src)
+    take_back(undo)
+    undo = edit_in_place(src)
+    tgt_seen = snapshot(tgt)
+    take_back(undo)
+    return {"res": res, "tgt": tgt_seen, "src": src_seen}
 
 
 def project(impl):
@@ -524,6 +761,15 @@ def features(case, impl):
         yield "ECU with an explicit attribute named like an Ecu member"
     if any(e[1] == "" for e in c["src"]["ecus"]):
         yield "source has an ECU without comment"
+    sigs = [s for f in c["src"]["frames"] for s in f[6]]
+    for mark, what in (("u", "unsigned"), ("f=", "factor"), ("o=", "offset"), ("un=", "unit"), ("r=", "explicit range"), ("v=", "value table")):
+        if any(s[1].count("|") == 2 and any(p == mark or (mark.endswith("=") and p.startswith(mark)) for p in s[1].split("|", 2)[2].split(";")) for s in sigs):
+            yield "source has a signal with " + what
+    if any("|" in f[3] for f in c["src"]["frames"]):
+        yield "source has a frame with length/cycle time/FD flag"
+    if c["req"][0] == "frame" and any((f[0], f[1]) != (c["req"][1], c["req"][2]) and f[2] in [g[2] for g in c["src"]["frames"] if (g[0], g[1]) == (c["req"][1], c["req"][2])]
+                                        for f in c["tgt"]["frames"]):
+        yield "frame copied next to a frame of the same name with another identifier"
     if c.get("pre"):
         edits = [s[2] for s in c["pre"]["steps"] if s[2][0] == "edit"]
         for e in edits:
